@@ -47,8 +47,10 @@ class SV(Term):
     def __round__(self, n=None):
         return SV("round", self, n)
 
-    def set_index(self, cols, **k):
-        if k:
+    def set_index(self, cols=None, **k):
+        if cols is None and "keys" in k:
+            cols = k.pop("keys")       # DataFrame.set_index(keys=...)
+        if k or cols is None:
             raise Unsupported("set_index() with keyword arguments on a symbolic frame")
         # DataFrame(X.reset_index().values.tolist(), columns=<index columns of X> + <columns of X>).set_index(<index columns of X>) is X
         if self.op == "DataFrame":
